@@ -27,6 +27,19 @@ def main(argv):
 CHECK_DEADLINE = {'quick': 1800.0, 'thorough': 5 * 3600.0}   # seconds; the slowest checks take ~2 min / ~40 min
 
 
+def _die_with_parent(parent):
+    """In the supervised child (its own session): if the supervisor is killed without being able to signal us, the
+    kernel kills this process too (PR_SET_PDEATHSIG); its pool workers then see their pipes close and exit, and a worker
+    stuck inside the code under test is ended by its own watchdog."""
+    try:
+        import ctypes, signal
+        ctypes.CDLL('libc.so.6', use_errno=True).prctl(1, int(signal.SIGKILL), 0, 0, 0)   # 1 = PR_SET_PDEATHSIG
+        if os.getppid() != parent:      # the supervisor went away before the call took effect
+            os._exit(2)
+    except Exception:  # noqa: BLE001   (no libc / prctl: carry on without)
+        pass
+
+
 def supervised(mod, tier, seed):
     """Run the check in a child process group under a wall-clock deadline.  Code under test that no longer terminates
     somewhere (a regular expression that backtracks for ever, a loop that does not end) would otherwise make the check
@@ -41,6 +54,7 @@ def supervised(mod, tier, seed):
         code = 2
         try:
             os.setsid()
+            _die_with_parent(os.getppid())
             code = framework.run_check(mod, tier, seed)
         except BaseException:  # noqa: BLE001
             import traceback
@@ -49,6 +63,14 @@ def supervised(mod, tier, seed):
             sys.stdout.flush()
             sys.stderr.flush()
             os._exit(code if isinstance(code, int) else 2)
+    def _forward(signum, frame):    # the supervisor is being stopped from outside: take the whole group with it
+        try:
+            os.killpg(child, signal.SIGKILL)
+        except OSError:
+            pass
+        os._exit(2)
+    for sig in (signal.SIGTERM, signal.SIGINT, signal.SIGHUP):
+        signal.signal(sig, _forward)
     while True:
         done, status = os.waitpid(child, os.WNOHANG)
         if done:
